@@ -134,6 +134,22 @@ MUTANTS = [
      r"(macro_rules! check_call_normal \{.*?)_ => false,\s*\};\s*if !check", r"\1_ => true,\n        };\n        if !check", {"C19"}),
     ("cert-test03-checks-wrong-method-name", "varlink-certification/src/main.rs",
      r'"org\.varlink\.certification\.Test03",\s*Test03_Args,', '"org.varlink.certification.Test02",\n            Test03_Args,', {"C19"}),
+    ("bridge-relay-stops-on-continues", "varlink-cli/src/proxy.rs",
+     r"if upgraded \|\| \(!reply\.continues\.unwrap_or\(false\)\) \{", "if upgraded || reply.continues.unwrap_or(false) {", {"C18"}),
+    ("bridge-reply-not-written-to-client", "varlink-cli/src/proxy.rs",
+     r"client_writer\.write_all\(&buf\)\?;\s*client_writer\.flush\(\)\?;\s*buf\.pop\(\);", "client_writer.flush()?;\n\n                buf.pop();", {"C18"}),
+    ("bridge-waits-for-oneway-reply", "varlink-cli/src/proxy.rs", r"if req\.oneway\.unwrap_or\(false\) \{\s*continue;\s*\}", "", {"C18"}),
+    ("bridge-getinfo-not-redirected", "varlink-cli/src/proxy.rs",
+     r'if req\.method == "org\.varlink\.service\.GetInfo" \{\s*req\.method = "org\.varlink\.resolver\.GetInfo"\.into\(\);\s*\}', "", {"C18"}),
+    ("bridge-interface-split-at-first-dot", "varlink-cli/src/proxy.rs",
+     r"(pub fn handle<R, W>.*?)let n: usize = match req\.method\.rfind\('\.'\) \{", r"\1let n: usize = match req.method.find('.') {", {"C18"}),
+    ("bridge-resolver-address-hard-coded", "varlink-cli/src/proxy.rs",
+     r"address = String::from\(resolver_address\);", 'address = String::from("unix:/run/org.varlink.resolver");', {"C18"}),
+    ("bridge-request-without-terminator", "varlink-cli/src/proxy.rs",
+     r'(pub fn handle<R, W>.*?)let b = to_string\(&req\)\? \+ "\\0";', r"\1let b = to_string(&req)?;", {"C18"}),
+    ("copy-drops-last-byte-of-chunk", "varlink-cli/src/proxy.rs", r"writer\.write_all\(&buf\[\.\.len\]\)\?;", "writer.write_all(&buf[..len - 1])?;", {"C18"}),
+    ("copy-interrupted-ends-copy", "varlink-cli/src/proxy.rs",
+     r"Err\(ref e\) if e\.kind\(\) == ErrorKind::Interrupted => continue,", "Err(ref e) if e.kind() == ErrorKind::Interrupted => return Ok(written),", {"C18"}),
 ]
 
 
